@@ -37,6 +37,9 @@ FLAVOURS = {
     # library asserts enabled, poisoned red zones; alignment checking off (alignment 1 is the documented default)
     'asan': ['clang++', '-std=c++17', '-O1', '-g', '-fsanitize=address,undefined', '-fno-sanitize=alignment,nonnull-attribute,returns-nonnull-attribute',
              '-fno-sanitize-recover=undefined', '-fno-omit-frame-pointer'],
+    # C19 only: real threads released one at a time by the seeded scheduler; only the library is instrumented
+    'tsan': ['clang++', '-std=c++17', '-O1', '-g', '-fsanitize=thread', '-DSIM_TSAN', '-pthread',
+             '-fsanitize-ignorelist=' + os.path.join(ROOT, 'sim', 'tsan_ignore.txt')],
 }
 
 QUICK_RUNS = int(os.environ.get('VERIF_QUICK_RUNS', '1500'))
@@ -181,6 +184,10 @@ def configs_for(prop, tier, seed):
 
 def flavours_for(prop, tier, cfg, seed, index):
     fl = ['fence20' if (index + seed) % 2 else 'fence']
+    if prop == 'C19':
+        if tier == 'thorough':
+            return ['fence', 'asan', 'tsan']
+        return fl + (['tsan'] if (index + seed) % 3 == 1 or 'real' in cfg['tags'] else [])
     if tier == 'thorough':
         fl = ['fence', 'fence20', 'asan']
     elif 'real' in cfg['tags'] or (index + seed) % 3 == 0:
@@ -258,6 +265,12 @@ def parse_output(stdout, stderr, prop, rc=0):
                 stats = json.loads(line[6:])
             except ValueError:
                 pass
+    if crash is None and stats is None and rc == 78:
+        m = re.search(r'SUMMARY: ThreadSanitizer: ([^\n]*)', stderr or '')
+        msg = re.sub(r'0x[0-9a-f]+', 'ADDR', m.group(1)) if m else 'thread sanitizer report'
+        msg = re.sub(r'^(data race) \S+ in ', r'\1 in ', msg)
+        crash = {'run': last_started, 'step': '?', 'op': 'c19', 'props': 'C19', 'class': 'crash:tsan-data-race',
+                 'key': msg[:160], 'status': 'viol' if prop == 'C19' else 'blocked'}
     if crash is None and stats is None and rc == 77:
         # a sanitizer runtime ended the process without going through our report callback (UBSan)
         m = re.search(r'runtime error: ([^\n]*)', stderr or '')
@@ -532,7 +545,7 @@ def check(prop, tier):
         path, _ = built[(c['name'], f)]
         if path is None:
             continue
-        n = runs_per if not f.startswith('asan') else max(200, runs_per // 5)
+        n = runs_per if f.startswith('fence') else max(200, runs_per // 5)
         chunk = max(250, n // 4)
         for frm in range(0, n, chunk):
             jobs.append(((c, f), (path, prop, seed, frm, min(chunk, n - frm), thorough, avoid, known_sigs,
